@@ -332,18 +332,21 @@ class Hooks:
             self.fired = "direct"
             raise FaultInjected("injected at call ending line %d col %d, occurrence %d" % (k[0], k[1], n))
 
-    def user(self, f):
-        import functools
+    def check(self, name="callable"):
+        """called at the start of every user-supplied callable"""
+        if self.current is not None:
+            if self.mode == "record":
+                self.reach.add(self.current)
+            elif self.mode == "user" and self.current == self.chosen and self.fired is None:
+                self.fired = "user callable %s" % name
+                raise FaultInjected("user callable %s failed underneath the call ending at line %d col %d, occurrence %d"
+                                    % (name, self.chosen[0][0], self.chosen[0][1], self.chosen[1]))
 
-        @functools.wraps(f)
+    def user(self, f, name=None):
+        name = name or getattr(f, "__name__", "callable")
+
         def wrapper(*a, **kw):
-            if self.current is not None:
-                if self.mode == "record":
-                    self.reach.add(self.current)
-                elif self.mode == "user" and self.current == self.chosen and self.fired is None:
-                    self.fired = "user callable %s" % getattr(f, "__name__", "?")
-                    raise FaultInjected("user callable failed underneath call ending line %d col %d, occurrence %d"
-                                        % (self.chosen[0][0], self.chosen[0][1], self.chosen[1]))
+            self.check(name)
             return f(*a, **kw)
         return wrapper
 
@@ -426,7 +429,7 @@ def _bath_pt(oq, hooks, steps=3, dt=0.2):
 def drv_compute_dynamics(hooks, ptype):
     import numpy as np
     import oqupy as oq
-    ham = hooks.user(lambda t: 0.5 * (1.0 + t) * oq.operators.sigma("x"))
+    ham = hooks.user(lambda t: 0.5 * (1.0 + t) * oq.operators.sigma("x"), "hamiltonian")
     system = oq.TimeDependentSystem(ham)
     oq.compute_dynamics(system, initial_state=oq.operators.spin_dm("z+"), dt=0.2, num_steps=4, progress_type=ptype)
 
@@ -434,9 +437,9 @@ def drv_compute_dynamics(hooks, ptype):
 def drv_compute_dynamics_with_field(hooks, ptype):
     import numpy as np
     import oqupy as oq
-    ham = hooks.user(lambda t, field: 0.5 * oq.operators.sigma("z") + 0.2 * np.abs(field) * oq.operators.sigma("x"))
+    ham = hooks.user(lambda t, field: 0.5 * oq.operators.sigma("z") + 0.2 * np.abs(field) * oq.operators.sigma("x"), "hamiltonian")
     system = oq.TimeDependentSystemWithField(ham)
-    eom = hooks.user(lambda t, states, field: -1j * field - 0.1j * np.matmul(oq.operators.sigma("y"), states[0]).trace().real)
+    eom = hooks.user(lambda t, states, field: -1j * field - 0.1j * np.matmul(oq.operators.sigma("y"), states[0]).trace().real, "field_eom")
     mfs = oq.MeanFieldSystem([system], eom)
     oq.compute_dynamics_with_field(mfs, 1.0 + 1.0j, initial_state_list=[oq.operators.spin_dm("z+")], dt=0.2, num_steps=4,
                                    progress_type=ptype)
@@ -447,11 +450,13 @@ def drv_compute_gradient_and_dynamics(hooks, ptype):
     import oqupy as oq
     from oqupy.gradient import compute_gradient_and_dynamics
     num_steps = 3
-    ham = hooks.user(lambda hx: 0.5 * hx * oq.operators.sigma("x"))
+    def ham(hx):
+        hooks.check("hamiltonian")
+        return 0.5 * hx * oq.operators.sigma("x")
     system = oq.ParameterizedSystem(hamiltonian=ham)
     pt, _, _ = _bath_pt(oq, hooks, num_steps)
     tgt = oq.operators.spin_dm("x+").T
-    target = hooks.user(lambda state: tgt)
+    target = hooks.user(lambda state: tgt, "target_derivative")
     compute_gradient_and_dynamics(system=system, initial_state=oq.operators.spin_dm("x-"), target_derivative=target,
                                   process_tensors=[pt], parameters=np.ones((2 * num_steps, 1)), progress_type=ptype)
 
@@ -462,15 +467,15 @@ def drv_chain_rule(hooks, ptype):
     num_steps = 3
     x0 = list(zip(np.ones(2 * num_steps)))
     system = oq.ParameterizedSystem(hamiltonian=lambda hx: 0.5 * hx * oq.operators.sigma("x"))
-    props = hooks.user(system.get_propagators(0.2, x0))
-    dprops = hooks.user(system.get_propagator_derivatives(0.2, x0))
+    props = hooks.user(system.get_propagators(0.2, x0), "propagators")
+    dprops = hooks.user(system.get_propagator_derivatives(0.2, x0), "dprop_dparam")
     oq.gradient._chain_rule(adjoint_tensor=np.ones((4, 4, 4, 4, 4)), dprop_dparam=dprops, propagators=props,
                             num_steps=num_steps, num_parameters=1, progress_type=ptype)
 
 
 def drv_tempo(hooks, ptype):
     import oqupy as oq
-    ham = hooks.user(lambda t: 0.5 * (1.0 + t) * oq.operators.sigma("x"))
+    ham = hooks.user(lambda t: 0.5 * (1.0 + t) * oq.operators.sigma("x"), "hamiltonian")
     system = oq.TimeDependentSystem(ham)
     corr = oq.PowerLawSD(alpha=0.1, zeta=1, cutoff=1.0, cutoff_type="gaussian", temperature=0.0)
     bath = oq.Bath(0.5 * oq.operators.sigma("z"), corr)
@@ -482,9 +487,9 @@ def drv_tempo(hooks, ptype):
 def drv_mean_field_tempo(hooks, ptype):
     import numpy as np
     import oqupy as oq
-    ham = hooks.user(lambda t, field: 0.5 * oq.operators.sigma("z") + 0.2 * np.abs(field) * oq.operators.sigma("x"))
+    ham = hooks.user(lambda t, field: 0.5 * oq.operators.sigma("z") + 0.2 * np.abs(field) * oq.operators.sigma("x"), "hamiltonian")
     system = oq.TimeDependentSystemWithField(ham)
-    eom = hooks.user(lambda t, states, field: -1j * field - 0.1j * np.matmul(oq.operators.sigma("y"), states[0]).trace().real)
+    eom = hooks.user(lambda t, states, field: -1j * field - 0.1j * np.matmul(oq.operators.sigma("y"), states[0]).trace().real, "field_eom")
     mfs = oq.MeanFieldSystem([system], eom)
     corr = oq.PowerLawSD(alpha=0.1, zeta=1, cutoff=1.0, cutoff_type="gaussian", temperature=0.0)
     bath = oq.Bath(0.5 * oq.operators.sigma("z"), corr)
@@ -496,7 +501,7 @@ def drv_mean_field_tempo(hooks, ptype):
 
 def drv_pt_tempo(hooks, ptype):
     import oqupy as oq
-    jw = hooks.user(lambda w: 0.1 * w)
+    jw = hooks.user(lambda w: 0.1 * w, "spectral_density")
     corr = oq.CustomSD(jw, cutoff=1.0, cutoff_type="gaussian", temperature=0.0)
     bath = oq.Bath(0.5 * oq.operators.sigma("x"), corr)
     par = oq.TempoParameters(dt=0.2, tcut=0.4, epsrel=1e-4)
@@ -507,7 +512,7 @@ def drv_pt_tempo(hooks, ptype):
 def drv_gibbs_tempo(hooks, ptype):
     import oqupy as oq
     import oqupy.tempo as tempo
-    jw = hooks.user(lambda w: 0.4 * w)
+    jw = hooks.user(lambda w: 0.4 * w, "spectral_density")
     corr = oq.CustomSD(jw, 5.0, cutoff_type="exponential", temperature=0.5)
     bath = oq.Bath(0.5 * oq.operators.sigma("z"), corr)
     system = oq.System(0.5 * oq.operators.sigma("x"))
@@ -531,7 +536,7 @@ def drv_correlations_nt(hooks, ptype):
     import numpy as np
     import oqupy as oq
     from oqupy.system_dynamics import compute_correlations_nt
-    ham = hooks.user(lambda t: 0.5 * (1.0 + t) * oq.operators.sigma("x"))
+    ham = hooks.user(lambda t: 0.5 * (1.0 + t) * oq.operators.sigma("x"), "hamiltonian")
     system = oq.TimeDependentSystem(ham)
     pt, _, _ = _bath_pt(oq, hooks, 3)
     sz = oq.operators.sigma("z")
